@@ -49,6 +49,8 @@ IdealDeps(n) ==
     ELSE LET ops == RuleOps(n) IN
          UNION {{ops[i].args[k] : k \in 1..Len(ops[i].args)} :
                     i \in {i \in 1..Len(ops) : ops[i].op \in {"ifchange", "watch", "out"}}}
+         \cup UNION {{ops[i].args[k] : k \in 3..Len(ops[i].args)} :
+                    i \in {i \in 1..Len(ops) : ops[i].op = "ifchangeif" /\ ~FromFirst(Ideal(ops[i].args[1]), ops[i].args[2])}}
 
 RECURSIVE Clo(_, _)
 Clo(S, k) == IF k = 0 THEN S ELSE Clo(S \cup UNION {IdealDeps(n) : n \in S}, k - 1)
